@@ -79,6 +79,18 @@ def run(ctx: Ctx):
                 recs.append(dict(name=list(toks), role=role, out=out, re=re, built=built))
     if maxlen == 3 and len(recs) != n_model:
         raise MachineryError(f"driver enumerated {len(recs)} names, the model has {n_model} initial states")
+    if maxlen == 3:
+        # a sample of longer names (the thorough tier enumerates all names of 4 tokens): the decision must not depend on where
+        # in the name a token stands
+        import random as _r
+        rng = _r.Random(ctx.seed)
+        for _ in range(6000):
+            toks = tuple(rng.choice(TOKENS) for _ in range(rng.choice([4, 4, 5])))
+            name = "_".join(toks)
+            role = rng.choice(["o", "b"])
+            out = parse(name, role)
+            re = parse(f"{out['alg']}_{out['n']}", role) if out["kind"] == "Std" else dict(kind="skip")
+            recs.append(dict(name=list(toks), role=role, out=out, re=re, built=-3))
     for i, rec in enumerate(recs):
         rec["tid"] = i
     chunk = 60000
